@@ -127,11 +127,18 @@ pub fn perp(exchange: ExchangeId, base: &str, quote: &str, settle: &str) -> Inst
 #[derive(Debug, Clone)]
 pub struct TestClock {
     pub now: Arc<Mutex<DateTime<Utc>>>,
+    /// event-time clock: the engine's time IS the time of the last time-stamped event, also when that is earlier
+    /// than the one before (late events; the stock `HistoricalClock` goes back too, by processing-time jitter, for
+    /// events of equal time)
+    pub follows_events: bool,
 }
 
 impl TestClock {
     pub fn new(start: DateTime<Utc>) -> Self {
-        Self { now: Arc::new(Mutex::new(start)) }
+        Self { now: Arc::new(Mutex::new(start)), follows_events: false }
+    }
+    pub fn following_events(start: DateTime<Utc>) -> Self {
+        Self { now: Arc::new(Mutex::new(start)), follows_events: true }
     }
 }
 
@@ -147,7 +154,7 @@ impl<K: std::fmt::Debug> Processor<&EngineEvent<K>> for TestClock {
         use barter::engine::clock::TimeExchange;
         if let Some(time) = event.time_exchange() {
             let mut now = self.now.lock().unwrap();
-            if time > *now {
+            if time > *now || self.follows_events {
                 *now = time;
             }
         }
